@@ -199,6 +199,15 @@ class C17(Prop):
                 items.append(it)
             out.append({"stream": "deser_list", "tag": "rnd:deser_list" + (":clean" if clean else ":dirty"),
                         "input": {"items": items, "d": d, "pe": rng.random() < 0.5, "esc": esc}})
+        # (3b) the fixed-length variant: the first n items (empty items dropped unless parse_empty), padded with the default.
+        #      Oracle only: its reference is the item list itself.
+        for _ in range(120 if quick else 3000):
+            d = rng.choice(DELIMS)
+            al = [c for c in alphabet(d, "=", None) if c != d]
+            items = [self._text(rng, al, (0, 0, 1, 2, 3)) for _ in range(rng.choice([0, 1, 2, 3, 4, 6]))]
+            out.append({"stream": "deser_fixed", "tag": "rnd:deser_fixed",
+                        "input": {"items": items, "d": d, "pe": rng.random() < 0.5, "n": rng.choice([0, 1, 2, 3, 5]),
+                                  "dflt": rng.choice([None, "D"])}})
         # (4) key=value and dict
         for _ in range(350 if quick else 8000):
             d, eq = rng.choice(DELIMS), rng.choice(EQS)
@@ -277,7 +286,7 @@ class C17(Prop):
                 out.append({"stream": "unescape", "tag": "rnd:unescape", "input": {"t": t}})
 
     # parse_ini / load_ini ---------------------------------------------------------------
-    NUMS = ["1", "12", "-3", "+4", "007", "1.5", "-0.25", ".5", "2.", "1.25", "0.0", "-0.0", "100.125", ".", "-", "+", "- 5", "+ 5",
+    NUMS = ["1", "12", "-3", "+4", "007", "1.5", "12345678901234567", "9999999999999999", "-9007199254740993", "-0.25", ".5", "2.", "1.25", "0.0", "-0.0", "100.125", ".", "-", "+", "- 5", "+ 5",
             "1.2.3", "1e3", "0.0001", "12345678.5", "1.1234567", "-.5", "+1.0", "00.50", "0",
             "--5", "+-7", "-+1.5", "++1", "-+", "5-", "5+", "--", "-1-2", "+.5", "-5."]
     INI_AL = ["a", "b", "Z", "1", " ", "=", "+", "#", "/", "'", '"', ".", "-", "é", "\t"]
@@ -330,7 +339,7 @@ class C17(Prop):
                 keys.add(key)
                 k = rng.random()
                 if k < 0.3:
-                    v = rng.choice([0, 5, -12, 1000, 10 ** 10])
+                    v = rng.choice([0, 5, -12, 1000, 10 ** 10, 12345678901234567, 9999999999999999, -(2 ** 53) - 1])
                 elif k < 0.35:
                     v = rng.choice([True, None])
                 else:
@@ -344,6 +353,8 @@ class C17(Prop):
         if st == "split":
             return isinstance(i.get("s"), str) and one(i.get("d")) and (i.get("esc") in (None, "") or one(i["esc"])) \
                 and (i.get("m") is None or (isinstance(i["m"], int) and i["m"] >= 0))
+        if st == "deser_fixed":
+            return False
         if st == "deser_list":
             return isinstance(i.get("items"), list) and len(i["items"]) >= 1 and one(i.get("d")) and (i.get("esc") in (None, "") or one(i["esc"]))
         if st == "deser_kv":
@@ -375,6 +386,9 @@ class C17(Prop):
         i, st, n0 = case["input"], case["stream"], self.n0
         if st == "split":
             return {"ok": L.canon(n0.split_with_escape(i["s"], i["d"], i["m"], i["esc"], i["trim"]))}
+        if st == "deser_fixed":
+            r = n0.deserialize_fixed_list(i["d"].join(i["items"]), i["n"], delimiter=i["d"], default_item=i["dflt"], parse_empty=i["pe"])
+            return {"ok": L.canon(list(r))}
         if st == "deser_list":
             return {"ok": L.canon(n0.deserialize_list(i["d"].join(i["items"]), i["d"], parse_empty=i["pe"], escape_character=i["esc"]))}
         if st == "deser_kv":
@@ -497,6 +511,18 @@ class C17(Prop):
 
     def oracle(self, case, obs):
         i, st = case["input"], case["stream"]
+        if st == "deser_fixed":
+            if "raise" in obs:
+                return "deserialize_fixed_list raised %s" % obs.get("exc")
+            text = i["d"].join(i["items"])
+            its = i["items"] or [""]              # the empty text is one empty item (str.split)
+            kept = its if i["pe"] else [x for x in its if x != ""]
+            if any(x != x.strip() for x in i["items"]):
+                return None          # items with outer blanks: trimming is the list deserialiser's business (deser_list stream)
+            want = (kept + [i["dflt"]] * i["n"])[:i["n"]]
+            got = L.uncanon(obs["ok"])
+            return None if got == want else "deserialize_fixed_list(%r, %d, parse_empty=%s) returned %r, the items give %r" % (
+                text, i["n"], i["pe"], got, want)
         if st in ("serialize", "ser_rt"):
             return self._oracle_ser(case, obs)
         if st == "unescape":
